@@ -200,6 +200,16 @@ def run(ctx):
             pair.append({'kind': 'keys', 'mode': 'ops', 's1': {'args': [], 'kw': []}, 's2': {'args': [], 'kw': []},
                          'ops': ops, 'lru': lru, 'form': form})
         ops_cases.append(pair)
+    # one configured decorator object applied to two functions: each keeps its own default cache
+    for i in range(60):
+        sig = {'args': [rng.choice('uv') for _ in range(rng.randint(0, 2))],
+               'kw': [[n, rng.choice('uv')] for n in rng.sample(['a', 'b'], rng.randint(0, 2))]}
+        pair = []
+        for form in ('options', 'direct'):
+            pair.append({'kind': 'keys', 'mode': 'twofuncs', 's1': sig, 's2': {'args': [], 'kw': []}, 'ops': [], 'lru': 0,
+                         'form': form if i % 3 else ('options' if form == 'options' else 'bare'),
+                         'variant': 'none' if i % 2 else 'empty'})
+        ops_cases.append(pair)
     flat = [s for t in ops_cases for s in t]
     res = run_group(ctx, 'harness.drivers.pure', 'pure', 'KeysTrace', flat, 'cache_forms', None)
     compare_forms(ctx, [(t[0], res[2 * k], t[1], res[2 * k + 1]) for k, t in enumerate(ops_cases)], 'cache_forms')
